@@ -185,6 +185,49 @@ fn vec_one(v: &Value) -> Value {
             };
         }
     }
+    // the public rewrites of a v5.0 PUBLISH must leave a self-consistent packet (the C02 chain again)
+    let mut rw = "na".to_string();
+    if pkt.is_some() {
+        if let Some(Ok(list)) = pn.run("rewrites", || pk::publish_rewrites(p)) {
+            if !list.is_empty() {
+                rw = "ok".into();
+            }
+            for (name, q) in list {
+                let good = pn
+                    .run("rewrite-check", || {
+                        let c2 = q.cont();
+                        if q.size() != c2.len() || q.vecs() != c2 {
+                            return false;
+                        }
+                        match split_header(&c2) {
+                            Some((rl, val)) if 1 + rl + val == c2.len() => match pk::parse(&k, &ver, w, c2[0] & 0x0f, &c2[1 + rl..]) {
+                                Ok((q2, n)) => n == val && q2.eq_dyn(q.as_ref()),
+                                Err(_) => false,
+                            },
+                            _ => false,
+                        }
+                    })
+                    .unwrap_or(false);
+                if !good && rw == "ok" {
+                    rw = format!("inconsistent:{name}");
+                }
+            }
+        }
+    }
+    // ... and `add_topic_alias` must produce exactly the reference bytes of the packet that carries the alias last
+    let mut rwf = "na".to_string();
+    if pkt.is_none() {
+        // only packets the builders accept are rewritten (a forbidden alias value is not handed to add_topic_alias)
+    } else if let Some(Some(r2)) = pn.run("add-alias", || pk::publish_via_add_alias(p)) {
+        rwf = match r2 {
+            Ok(q) => {
+                if pn.run("add-alias-bytes", || q.cont() == reference).unwrap_or(false) { "ok".into() } else { "differs".into() }
+            }
+            Err(_) => "na".into(), // the packet without its alias is not buildable (empty topic)
+        };
+    }
+    m.insert("rwf".into(), json!(rwf));
+    m.insert("rw".into(), json!(rw));
     m.insert("ow".into(), json!(ow));
     m.insert("orphan".into(), json!(orphan));
     let d = first_diff(&cont, &reference);
